@@ -1339,3 +1339,7 @@ mod tests {
         assert_eq!(int_column_index.nan_counts(), None);
     }
 }
+
+#[cfg(kani)]
+#[path = "/verif/kani/parquet/file/statistics.rs"]
+mod verif_kani;
